@@ -6,8 +6,7 @@ from . import hirq as H
 
 # callee def paths (prefix match) whose contract is "panics / UB if a precondition is violated"
 DENY_PREFIX = (
-    "core::option::Option::<T>::unwrap", "core::option::Option::<T>::expect",
-    "core::result::Result::<T, E>::unwrap", "core::result::Result::<T, E>::expect", "core::result::Result::<T, E>::into_ok",
+    "core::result::Result::<T, E>::into_ok",
     "core::ops::index::Index::index", "core::ops::index::IndexMut::index_mut",
     "core::slice::<impl [T]>::copy_from_slice", "core::slice::<impl [T]>::clone_from_slice", "core::slice::<impl [T]>::split_at",
     "core::slice::<impl [T]>::swap", "core::slice::<impl [T]>::chunks", "core::slice::<impl [T]>::windows", "core::slice::<impl [T]>::rotate",
@@ -22,6 +21,12 @@ DENY_PREFIX = (
     "core::iter::traits::iterator::Iterator::step_by", "core::clone::Clone::clone_from",
     "core::convert::From::from",  # narrowed below: only the panicking heapless String/Vec From impls
 )
+# the unwrap family, matched exactly (unwrap_or / unwrap_or_default / unwrap_or_else do not panic)
+DENY_EXACT = {
+    "core::option::Option::<T>::unwrap", "core::option::Option::<T>::expect", "core::option::Option::<T>::unwrap_unchecked",
+    "core::result::Result::<T, E>::unwrap", "core::result::Result::<T, E>::expect", "core::result::Result::<T, E>::unwrap_err",
+    "core::result::Result::<T, E>::expect_err", "core::result::Result::<T, E>::unwrap_unchecked", "core::result::Result::<T, E>::unwrap_err_unchecked",
+}
 # `core::num::<impl uN>::` methods that cannot panic
 NUM_SAFE = re.compile(r"^core::num::<impl [iu](8|16|32|64|128|size)>::(saturating_|wrapping_|checked_|overflowing_|to_[bln]e_bytes|from_[bln]e_bytes|min|max|leading_|trailing_|count_|is_power|swap_bytes|to_be|to_le|from_be|from_le|rotate_|reverse_bits|abs_diff|signum|is_positive|is_negative)")
 BENIGN = {"core::fmt::Arguments::<'a>::new"}  # compiler-generated lowering of format_args!
@@ -43,6 +48,8 @@ def is_denied(ev):
             return False
         # pow, abs, neg, div_euclid, rem_euclid, next_power_of_two, ilog ... can overflow-panic in debug builds
         return bool(re.match(r"^core::num::<impl [iu]\w+>::(pow|abs|div_euclid|rem_euclid|next_power_of_two|ilog|isqrt|strict_|unchecked_|div_ceil|next_multiple_of)", c))
+    if c in DENY_EXACT:
+        return True
     return any(c.startswith(p) for p in DENY_PREFIX if p not in ("core::convert::From::from", "core::num::<impl"))
 
 
